@@ -516,6 +516,53 @@ int sweepClockKeep(uint32_t phaseFrom, uint32_t phaseCount) {
 }
 
 // ---------------------------------------------------------------------------
+// Bounded exhaustive enumeration for C14: every sequence of `depth` ops over a small alphabet of schedule steps,
+// for every combination of outcomes of the first three requests, for several period configurations and the three
+// reference / backup arrangements, each followed by the fault-free drain. Same executor, same model as the seeded
+// search; this is the "all interleavings to a depth bound" family the property's quantifier names.
+int enumClockSync(unsigned job, unsigned jobs, unsigned depth) {
+  static const char* kOps[] = {"LOOP", "ADV 1", "ADV 400", "ADVDL -1", "ADVDL 0", "ADVDL 1", "SET 700000000"};
+  static const char* kPlans[] = {"VALID lat=0 val=0", "VALID lat=400 val=2", "INVALID lat=400", "LOST"};
+  static const char* kCfgs[] = {"sync=7 init=2 tmo=1000", "sync=3 init=1 tmo=400", "sync=60 init=5 tmo=0", "sync=5 init=10 tmo=2000"};
+  static const char* kArr[] = {"ref=distinct bak=1", "ref=same bak=1", "ref=none bak=1"};
+  const unsigned nOps = 7;
+  if (depth < 1 || depth > 9) depth = 6;
+  unsigned long long seqs = 1;
+  for (unsigned i = 0; i < depth; i++) seqs *= nOps;
+  unsigned long long traces = 0, idx = 0;
+  for (unsigned c = 0; c < 4; c++) for (unsigned a = 0; a < 3; a++) for (unsigned p = 0; p < 64; p++, idx++) {
+    if (idx % jobs != job) continue;
+    if (a == 2 && p != 0) continue;   // no reference: the request outcomes do not matter
+    for (unsigned long long sidx = 0; sidx < seqs; sidx++) {
+      Trace tr; tr.profile = "clock-sync";
+      tr.lines.push_back(fmt("CFG CLOCK %s %s boot=4294960000 refbase=650000000 rtc=650000000", kCfgs[c], kArr[a]));
+      for (unsigned k = 0; k < 3; k++) tr.lines.push_back(fmt("REF %u %s", k, kPlans[(p >> (2 * k)) & 3]));
+      unsigned long long x = sidx;
+      for (unsigned i = 0; i < depth; i++) { tr.lines.push_back(kOps[x % nOps]); x /= nOps; }
+      tr.lines.push_back("DRAIN");
+      tr.lines.push_back("GET");
+      Verdict v; Coverage cov;
+      ClockOpts o; o.armC14 = true;
+      ClockDevice dev(o);
+      for (size_t i = 0; i < tr.lines.size() && !v.violated; i++) {
+        std::vector<std::string> toks = splitWs(tr.lines[i]);
+        if (toks[0] == "CFG" || toks[0] == "REF") { dev.configure(toks); continue; }
+        dev.exec(toks, (int)i, v, cov);
+      }
+      traces++;
+      if (v.violated) {
+        printf("ENUMVIOL class=%s msg=\"%s\"\n", v.vclass.c_str(), jsonEscape(v.message).c_str());
+        printf("ENUMTRACE %s\n", jsonEscape(tr.text()).c_str());
+        printf("ENUM traces=%llu\n", traces);
+        return 1;
+      }
+    }
+  }
+  printf("ENUM traces=%llu\n", traces);
+  return 0;
+}
+
+// ---------------------------------------------------------------------------
 // Generators (pure functions of the seed).
 
 static uint64_t drawBoot(Rng& rng) {
